@@ -409,7 +409,7 @@ def rule_r3(ctx, an: Anchors) -> None:
         for f, n, m, recv in table_mutations(a, table):
             if m.kind not in ("store", "aug", "call:update", "call:__setitem__", "call:setdefault"):
                 continue
-            if f.name == "__init__" and f.cls is an.Context:
+            if f in an.init_closure:
                 continue
             count += 1
             if m.kind == "call:setdefault":
@@ -440,7 +440,7 @@ def rule_r4(ctx, an: Anchors) -> None:
         for f, n, m, recv in table_mutations(a, table):
             sites += 1
             removing = m.kind in ("del", "call:pop", "call:clear", "call:popitem", "call:remove", "call:discard")
-            rebinding = m.kind == "rebind" and not (f.name == "__init__" and f.cls is an.Context)
+            rebinding = m.kind == "rebind" and f not in an.init_closure
             if removing or rebinding:
                 bad += 1
                 rep.violate("C03.R4", f, m.node, f"{m.kind} on {'.'.join(recv)}.{table}: a registered resource can disappear or the table be replaced after construction")
